@@ -1,5 +1,6 @@
 import CC.Model.Prims
 import CC.Spec.Cover
+import CC.Model.Sym
 /-! # Line-protocol driver for the model
 
 One operation per input line, one canonical output line per input line. The Rust harness
@@ -128,6 +129,8 @@ structure St where
   mpks : Array (Option Mpk) := #[]
   usks : Array (Option Usk) := #[]
   encs : Array (Option (XEnc × Nat)) := #[]
+  pkes : Array (Option (XEnc × Sealed)) := #[]
+  hdrs : Array (Option (Header × DKey)) := #[]
   nm : Names := {}
 
 def setSlot {α} (a : Array (Option α)) (i : Nat) (v : Option α) : Array (Option α) :=
@@ -151,6 +154,26 @@ def policyOf (s : String) : Except Err AP :=
   | _ => .error .conversion
 
 def errLine (e : Err) : String := "err " ++ errName e
+
+/-- byte arguments travel as `x<hex>` (so that the empty string is a token), `-` = absent -/
+def optBytes (s : String) : Option (Option Bytes) :=
+  if s == "-" then some none
+  else match s.toList with
+    | 'x' :: rest => (unhexL rest).map some
+    | _ => none
+
+def tamperOf (len : Nat) (op arg : String) : Option Tamper :=
+  match op, arg.toNat? with
+  | "trunc", some n => some (if n ≥ len then .intact else if n < NONCE_LENGTH then .short else .altered)
+  | "flip", some n => some (if n < len then .altered else .intact)
+  | _, _ => none
+
+def _root_.CC.Tamper.join : Tamper → Tamper → Tamper
+  | .intact, t => t
+  | t, .intact => t
+  | .short, _ => .short
+  | _, .short => .short
+  | _, _ => .altered
 
 def rightsStr (rs : List Right) : String := String.intercalate "," (sortStrs (rs.map hexOfBytes))
 
@@ -384,6 +407,91 @@ def step (st : St) (line : String) : St × String :=
         match (policyOf p).bind m.structure_.encRights with
         | .error e => (st, errLine e)
         | .ok rs => (st, "ok " ++ rightsStr rs)
+  | ["pke_enc", ks, xs, p, ptx] =>
+    match handle 'K' ks, handle 'X' xs, optBytes ptx with
+    | some k, some j, some (some ptx) =>
+      match getSlot st.mpks k with
+      | none => (st, "err NoSuchHandle")
+      | some mpk =>
+        match (policyOf p).bind mpk.structure_.encRights with
+        | .error e => (st, errLine e)
+        | .ok rights =>
+          match pkeEncrypt mpk rights ptx st.rng with
+          | (.error e, n') => ({ st with rng := n' }, errLine e)
+          | (.ok c, n') => ({ st with rng := n', pkes := setSlot st.pkes j (some c) }, "ok len=" ++ toString c.2.length)
+    | _, _, _ => (st, "bad-op")
+  | ["pke_dec", us, xs] =>
+    match handle 'U' us, handle 'X' xs with
+    | some i, some j =>
+      match getSlot st.usks i, getSlot st.pkes j with
+      | some u, some c =>
+        match pkeDecrypt u c with
+        | .error e => (st, errLine e)
+        | .ok none => (st, "ok none")
+        | .ok (some p) => (st, "ok some x" ++ hexOfBytes p)
+      | _, _ => (st, "err NoSuchHandle")
+    | _, _ => (st, "bad-op")
+  | ["pke_tamper", xs, xd, op, arg] =>
+    match handle 'X' xs, handle 'X' xd with
+    | some i, some j =>
+      match getSlot st.pkes i with
+      | none => (st, "err NoSuchHandle")
+      | some c =>
+        if op == "swapenc" then
+          match (handle 'E' arg).bind (getSlot st.encs) with
+          | none => (st, "err NoSuchHandle")
+          | some e => ({ st with pkes := setSlot st.pkes j (some (e.1, c.2)) }, "ok")
+        else match tamperOf c.2.length op arg with
+          | none => (st, "bad-op")
+          | some t => ({ st with pkes := setSlot st.pkes j (some (c.1, { c.2 with tamper := c.2.tamper.join t })) }, "ok")
+    | _, _ => (st, "bad-op")
+  | ["hdr_gen", ks, hs, p, md, ad] =>
+    match handle 'K' ks, handle 'H' hs, optBytes md, optBytes ad with
+    | some k, some j, some md, some ad =>
+      match getSlot st.mpks k with
+      | none => (st, "err NoSuchHandle")
+      | some mpk =>
+        match (policyOf p).bind mpk.structure_.encRights with
+        | .error e => (st, errLine e)
+        | .ok rights =>
+          match hdrGenerate mpk rights md ad st.rng with
+          | (.error e, n') => ({ st with rng := n' }, errLine e)
+          | (.ok (sec, h), n') =>
+            ({ st with rng := n', hdrs := setSlot st.hdrs j (some (h, sec)) },
+              "ok meta=" ++ (match h.mdata with | none => "-" | some c => toString c.length))
+    | _, _, _, _ => (st, "bad-op")
+  | ["hdr_dec", us, hs, ad] =>
+    match handle 'U' us, handle 'H' hs, optBytes ad with
+    | some i, some j, some ad =>
+      match getSlot st.usks i, getSlot st.hdrs j with
+      | some u, some (h, sec) =>
+        match hdrDecrypt u h ad with
+        | .error e => (st, errLine e)
+        | .ok none => (st, "ok none")
+        | .ok (some (s, m)) =>
+          (st, "ok some sec=" ++ (if s = sec then "1" else "0") ++ " meta=" ++
+            (match m with | none => "-" | some b => "x" ++ hexOfBytes b))
+      | _, _ => (st, "err NoSuchHandle")
+    | _, _, _ => (st, "bad-op")
+  | ["hdr_tamper", hs, hd, op, arg] =>
+    match handle 'H' hs, handle 'H' hd with
+    | some i, some j =>
+      match getSlot st.hdrs i with
+      | none => (st, "err NoSuchHandle")
+      | some (h, sec) =>
+        if op == "roundtrip" then ({ st with hdrs := setSlot st.hdrs j (some (h, sec)) }, "ok")
+        else if op == "swapenc" then
+          match (handle 'E' arg).bind (getSlot st.encs) with
+          | none => (st, "err NoSuchHandle")
+          | some e => ({ st with hdrs := setSlot st.hdrs j (some ({ h with enc := e.1 }, sec)) }, "ok")
+        else match h.mdata with
+          | none => ({ st with hdrs := setSlot st.hdrs j (some (h, sec)) }, "ok")
+          | some c =>
+            match tamperOf c.length op arg with
+            | none => (st, "bad-op")
+            | some t =>
+              ({ st with hdrs := setSlot st.hdrs j (some ({ h with mdata := some { c with tamper := c.tamper.join t } }, sec)) }, "ok")
+    | _, _ => (st, "bad-op")
   | ["covers", ms, ks, pu, pe] =>
     -- the *specification* verdict: name-level cover relation on the key's structure
     match handle 'M' ms, handle 'K' ks with
